@@ -9,6 +9,9 @@
    (every operand pair x op x direction x policy) and one per policy for the boundary-biased /
    random 16/32/64-bit cases; the driver runs the code-shaped model and, independently,
    evaluates K4.holds / K4.directed / overflow claim / stored-value sanity on the REAL output;
+   The harness measures on the witnesses of the repaired findings KF-C11-1..4 whether the tree still
+   carries the repairs; if one is absent that is a VIOLATION, and the driver compares the library with
+   the as-written variant of that primitive so that what is reported is the violated clause + witness;
 5. a case whose real output breaks a property clause is a VIOLATION (KNOWN-FINDING when its
    site + structural tag match an open entry of known_findings.json); a case where only the
    model differs is a correspondence break (`no-failing-input-found`).
@@ -106,7 +109,19 @@ def run(ctx):
     rc, cfg_out, _ = ctx.run([h, "--mode", "cfg"])
     cfg_lines = (cfg_out or "").splitlines()
     repairs = {l.split()[2]: l.split()[3] == "1" for l in cfg_lines if l.startswith("cfg fix ")}
-    ctx.cov["repairs_detected_in_tree"] = repairs     # fixes/fix_c11_*.diff present? (the driver's model follows)
+    ctx.cov["repairs_detected_in_tree"] = repairs     # KF-C11-1..4 repairs (committed in /repo) still present?
+    WITNESS = {"div": ("KF-C11-1", "div_signed_int", "int8_t 7 / -2 ROUND_DOWN must store -4 (V_GT), not -3"),
+               "subMul": ("KF-C11-2", "sub_mul_int", "int8_t 0 - 2*64 ROUND_UP must not return V_LT_INF (exact result -128 is representable)"),
+               "umod": ("KF-C11-3", "umod_2exp_signed_int", "int8_t/Extended_Number_Policy -1 umod 2^7 must not store 127 (= +inf) with V_EQ"),
+               "isqrt": ("KF-C11-4", "sqrt_signed_int", "int8_t sqrt(64) ROUND_UP must store 8 (V_EQ), not 0 (V_LT)")}
+    for name, (kf, site, wit) in WITNESS.items():
+        if repairs.get(name) is False:
+            # regression: the driver compares with the as-written variant, the violated clauses follow below
+            ctx.violation("the repair of %s (%s) is absent from this tree: %s" % (kf, site, wit),
+                          {"finding": kf, "site": site, "witness": wit, "replay_cmd": "%s --mode cfg" % h},
+                          found_input=True, record={"site": site + ":regression", "tags": []})
+    if len(repairs) != 4:
+        broken.append("harness did not report the four repair measurements: %s" % repairs)
     bic = [l.split()[3:] for l in cfg_lines if l.startswith("cfg policy BIC ")]
     src_bic = source_policy_flags(os.path.join(REPO, "src", "Coefficient_types.hh"), "Bounded_Integer_Coefficient_Policy")
     if not bic or src_bic is None or bic[0] != src_bic:
